@@ -53,3 +53,13 @@ Definition obs_step (r : res (sys * list action)) : val :=
 
 Definition run_history (last_n tau : N) (st0 : store) (evs : list (N * event)) : val :=
   vlist obs_step (run (mkSys [] st0 last_n) tau evs).
+
+From LC Require Export StoreCodec.
+Definition run_codec (td : N) (header : list N) (lastn : list (N * list N)) : val :=
+  VL [vlist VN (enc_last_state td header);
+      vlist VN (enc_last_n lastn);
+      match dec_last_state (enc_last_state td header) with
+      | Some (t, h) => VL [VN t; vlist VN h]
+      | None => VL []
+      end;
+      vlist (fun e : N * list N => VL [VN (fst e); vlist VN (snd e)]) (dec_last_n (length lastn) (enc_last_n lastn))].
